@@ -17,7 +17,7 @@ type prod struct {
 }
 
 type Grammar struct {
-	U      []*Ty            // type universe
+	U      []*Ty // type universe
 	byRes  map[string][]*prod
 	leaves map[string][]*Term
 	memo   map[string][][]*Term // canon type -> size -> terms
